@@ -608,6 +608,10 @@ def f_tree():
     deepf = cmd("deep", [arg("vals", num=(0, None), delim=","), arg("w", "w", action="SetTrue")], short_flag="D")
     add("global-settings-depth-2-flags", cmd("p", [arg("t", "t", action="SetTrue")], subs=[cmd("mid", [arg("m", "m", action="SetTrue")], subs=[deepf], short_flag="M")],
                                              dont_delimit_trailing_values=True), extra=["-MD", "-M", "-D", "a,b", "-MDw", "-tMD"])
+    # hidden subcommands, with and without an about text
+    add("hidden-subcommands", cmd("p", [arg("f", "f", action="SetTrue")],
+                                  subs=[cmd("vis", [arg("v", "v", action="SetTrue")], subs=[cmd("inner"), cmd("ihid", hide=True)]), cmd("hid", hide=True),
+                                        cmd("hidabout", hide=True, about="about")]), extra=["vis", "hid", "hidabout", "h", "help", "inner", "ihid"])
     # what becomes of argv[0]
     applets = [cmd("true"), cmd("ls", [arg("l", "l", "long", action="SetTrue"), arg("path", num=(0, None))], aliases=["dir"]),
                cmd("box", subs=[cmd("inner", [arg("i", "i", action="SetTrue")])])]
